@@ -157,20 +157,21 @@ type Dev struct {
 }
 
 type Report struct {
-	ID        int      `json:"id"`
-	Type      string   `json:"t"`
-	Preset    string   `json:"preset"`
-	Kind      string   `json:"kind"` // value | overlimit
-	Checks    int      `json:"checks"`
-	Devs      []Dev    `json:"devs"`
-	Notes     []string `json:"notes"`
-	Hash      string   `json:"hash"`
-	Bytes     int      `json:"bytes"`
-	NonZero   bool     `json:"nonzero"`
-	HasView   bool     `json:"has_view"`
-	MalTried  int      `json:"mal_tried"`
-	PlanHash  int      `json:"plan_hashes"`
-	MalByKind map[string]int `json:"mal_by_kind,omitempty"`
+	ID          int            `json:"id"`
+	Type        string         `json:"t"`
+	Preset      string         `json:"preset"`
+	Kind        string         `json:"kind"` // value | overlimit
+	Checks      int            `json:"checks"`
+	Devs        []Dev          `json:"devs"`
+	Notes       []string       `json:"notes"`
+	Hash        string         `json:"hash"`
+	Bytes       int            `json:"bytes"`
+	NonZero     bool           `json:"nonzero"`
+	HasView     bool           `json:"has_view"`
+	MalTried    int            `json:"mal_tried"`
+	PlanHash    int            `json:"plan_hashes"`
+	AliasProbes int            `json:"alias_probes"`
+	MalByKind   map[string]int `json:"mal_by_kind,omitempty"`
 }
 
 // callM invokes method `name` on obj (a pointer), passing spec first when the method wants it; panics are returned
@@ -461,6 +462,40 @@ func checkOne(te *sszreg.TypeEntry, b *sszreg.Binding, spec *common.Spec, hFn tr
 						}()
 						if got := hv.HashTreeRoot(hFn); got != tree.Root(planRoot) {
 							dev("C05", "view_root_mismatch", "View", "root of struct.View() %x, specification root %x", got[:], planRoot[:])
+						}
+					}()
+				}
+			}
+		}
+	}
+
+	// ---------------- argument aliasing: a view converted from a struct holds VALUES; when the caller overwrites the
+	// struct afterwards, the view (its encoding, hence its content) must not change
+	if obj != nil && reflect.ValueOf(obj).MethodByName("View").IsValid() {
+		o2 := b.New()
+		if err := deserialize(o2, spec, ser); err == nil {
+			if out, err := callM(o2, "View", spec); err == nil && len(out) >= 1 && !(len(out) == 2 && !out[1].IsNil()) {
+				if vv, ok := out[0].Interface().(interface {
+					Serialize(w *codec.EncodingWriter) error
+				}); ok && !(out[0].Kind() == reflect.Ptr && out[0].IsNil()) {
+					func() {
+						defer func() {
+							if r := recover(); r != nil {
+								note("alias probe panicked: %v", r)
+							}
+						}()
+						var b1, b2 bytes.Buffer
+						if vv.Serialize(codec.NewEncodingWriter(&b1)) != nil {
+							return
+						}
+						cells := sszreg.Scribble(reflect.ValueOf(o2))
+						if cells == 0 || vv.Serialize(codec.NewEncodingWriter(&b2)) != nil {
+							return
+						}
+						rep.Checks++
+						rep.AliasProbes++
+						if !bytes.Equal(b1.Bytes(), b2.Bytes()) {
+							dev("C05", "view_aliases_struct", "View", "the view returned by View() changed when the struct was overwritten afterwards: %s", firstDiff(b1.Bytes(), b2.Bytes()))
 						}
 					}()
 				}
